@@ -8,8 +8,12 @@ oracle    : alpha = library to_Matrix;  alpha(X*Y)=alpha(X)alpha(Y), alpha(X^-1)
 """
 from __future__ import annotations
 
+import contextlib
+import io
 import itertools
 from collections import deque
+
+import casadi as ca
 
 import numpy as np
 
@@ -164,6 +168,7 @@ def explore_config(case):
     numapi.check_group(res, B, [e["p"] for e in sel], [], case, "config", ("product", "inverse", "to_Matrix"))
     numapi.check_forms(res, B, [e["p"] for e in sel], [], case, "config", ("product", "inverse", "to_Matrix"))
     numapi.check_composed(res, B, [e["p"] for e in sel][:14], [], case, "config", firsts=["inverse", "square"], seconds=["to_Matrix", "inverse", "param_g"])
+    numapi.check_aliasing(res, B, [e["p"] for e in sel][:14], [], case, "config", ("inverse", "to_Matrix"))
     # ---- words: BFS over {X*g, g*X, X^-1} ---------------------------------------------------------
     gens = _word_generators(elems, M, I, 6 if not is_dp else 4)
     words_bfs(res, name, B, L, gens, e_id, depth, case)
@@ -353,6 +358,107 @@ def explore_chain(case):
     return res
 
 
+def explore_reuse(case):
+    """group objects used more than once: a product that becomes a factor of further products must stay intact; elements of equal but
+    distinct group objects (a product or semidirect product built twice, a deep copy of an element) multiply like elements of one object"""
+    import copy
+    tier, seed, a, b, c, d = case["tier"], case["seed"], case["a"], case["b"], case["c"], case["d"]
+    res = core.Result()
+    S = lib.base_groups()
+    name = "%s*%s" % (a, b)
+    ref_B = lib.built(name)  # the same product built independently from its expression
+    L = lib.layout(ref_B.G)
+    elems = [e["p"] for e in alpha.reduced([e for e in alpha.elements(L, seed, small=True) if gutil.elem_excluded(L, e["p"]) is None], 10)]
+
+    def snapshot(G):
+        Bx = lib.Built("reuse", G)
+        out = {}
+        for op in ("to_Matrix", "inverse", "log", "Ad"):
+            if Bx.get(op) is None:
+                continue
+            out[op] = [Bx.call(op, p) for p in elems if (op != "inverse" or gutil.inverse_excluded(L, p) is None)]
+        if Bx.get("product") is not None:
+            out["product"] = [Bx.call("product", p, q) for p, q in zip(elems, elems[1:]) if not gutil.product_excluded(L, p, q)]
+        if Bx.get("identity") is not None:
+            out["identity"] = [Bx.call("identity")]
+        return out
+
+    def same(x, y):
+        return x.keys() == y.keys() and all(len(x[k]) == len(y[k]) and all(u.shape == v.shape and np.array_equal(np.nan_to_num(u), np.nan_to_num(v)) for u, v in zip(x[k], y[k])) for k in x)
+    res.count("evaluations")
+    res.nontrivial.add(hash((a, b, c, d)))
+    res.nontrivial.add(hash((a, b, c, d, 1)))
+    try:
+        with contextlib.redirect_stdout(io.StringIO()):
+            base = S[a] * S[b]
+            before = snapshot(base)
+            aug1 = base * S[c]
+            mid = snapshot(base)
+            aug2 = base * S[d]
+            nested = S[d] * base
+            twice = base * base
+            after = snapshot(base)
+            want = snapshot(ref_B.G)
+    except Exception as ex:
+        res.fail(site=name, clause="product_group_reusable_as_factor", cls="raises", detail=dict(then=[c, d], error="%s: %s" % (type(ex).__name__, str(ex)[:200])), sub="reuse", case=case)
+        return res
+    if not (same(before, want) and same(mid, want) and same(after, want)):
+        res.fail(site=name, clause="product_group_reusable_as_factor", cls="changed", detail=dict(then=[c, d], before_ok=bool(same(before, want)), after_first_ok=bool(same(mid, want)),
+                 after_all_ok=bool(same(after, want))), sub="reuse", case=case)
+    # the products built from the (re)used object equal the ones built from a fresh expression
+    for tag, Gx, expr in (("aug1", aug1, "(%s*%s)*%s" % (a, b, c)), ("aug2", aug2, "(%s*%s)*%s" % (a, b, d)), ("nested", nested, "%s*(%s*%s)" % (d, a, b))):
+        res.count("evaluations")
+        Bf = lib.built(expr)
+        Lf = lib.layout(Bf.G)
+        pf = [e["p"] for e in alpha.reduced([e for e in alpha.elements(Lf, seed, small=True) if gutil.elem_excluded(Lf, e["p"]) is None], 6)]
+        try:
+            with contextlib.redirect_stdout(io.StringIO()):
+                Bx = lib.Built("reuse_" + tag, Gx)
+                ok = Gx.n_param == Bf.G.n_param and all(np.array_equal(Bx.call("to_Matrix", p), Bf.call("to_Matrix", p)) for p in pf) and \
+                    all(np.array_equal(Bx.call("product", p, q), Bf.call("product", p, q)) for p, q in zip(pf, pf[1:]) if not gutil.product_excluded(Lf, p, q))
+        except Exception as ex:
+            res.fail(site=expr, clause="product_built_from_reused_factor_equals_fresh_one", cls="raises", detail=dict(error="%s: %s" % (type(ex).__name__, str(ex)[:200])), sub="reuse", case=case)
+            continue
+        if not ok:
+            res.fail(site=expr, clause="product_built_from_reused_factor_equals_fresh_one", cls=tag, detail=dict(n_param=int(Gx.n_param), expected_n_param=int(Bf.G.n_param)), sub="reuse", case=case)
+    # equal but distinct group objects, deep copies
+    G1, G2 = lib.resolve(name), lib.resolve(name)
+    for p, q in list(zip(elems, elems[1:]))[:6]:
+        if gutil.product_excluded(L, p, q):
+            continue
+        res.count("evaluations")
+        want_pq = ref_B.call("product", p, q)
+        for tag, mkx, mky in (("two_group_objects", lambda: G1.elem(ca.DM(p)), lambda: G2.elem(ca.DM(q))), ("deep_copy", lambda: copy.deepcopy(G1.elem(ca.DM(p))), lambda: G1.elem(ca.DM(q)))):
+            try:
+                with contextlib.redirect_stdout(io.StringIO()):
+                    got = numapi.ev((mkx() * mky()).param)
+            except Exception as ex:
+                res.fail(site=name + ".product", clause="elements_of_equal_group_objects_multiply", cls=tag, detail=dict(error="%s: %s" % (type(ex).__name__, str(ex)[:200])), sub="reuse", case=case)
+                break
+            if not numapi._same(got.reshape(want_pq.shape), want_pq, 1e-12)[0]:
+                res.fail(site=name + ".product", clause="elements_of_equal_group_objects_multiply", cls=tag, detail=dict(X=p, Y=q, got=got, want=want_pq), sub="reuse", case=case)
+                break
+    res.outcomes.add(hash((a, b, c, d)))
+    res.count("states", 4)
+    res.count("transitions", 5)
+    res.samples.append(dict(reuse=[a, b, c, d]))
+    return res
+
+
+class _Reuse:
+    chunks = 1
+
+    def cases(self, tier, seed):
+        quads = [("SE3Quat", "R3", "SO2", "SE2"), ("SO3Mrp", "R3", "SO3Quat", "SE2"), ("SE2", "SE2", "SO3Quat", "R2"), ("SO3Quat", "SO3Mrp", "SE23Quat", "SO2"),
+                 ("SE3Dcm", "SO2", "R3", "SE3Euler"), ("SE23Mrp", "SO3EulerB321", "R2", "SO3Dcm")]
+        if tier == "thorough":
+            quads += [("R3", "SE3Mrp", "SE23Quat", "SO3Dcm"), ("SO2", "SO2", "SE2", "SE2"), ("SE23Dcm", "R2", "SO3Mrp", "SE3Quat")]
+        return [dict(sub="reuse", tier=tier, seed=seed, a=a, b=b, c=c, d=d) for a, b, c, d in quads]
+
+    def run(self, case):
+        return explore_reuse(case)
+
+
 class _Chain:
     chunks = 1
 
@@ -366,6 +472,8 @@ class _Chain:
 
 SUBCHECKS["chain"] = _Chain()
 REPLAY["chain"] = lambda c: explore_chain(c).fails
+SUBCHECKS["reuse"] = _Reuse()
+REPLAY["reuse"] = lambda c: explore_reuse(c).fails
 
 
 # results must not depend on which library calls were made earlier in the process (see mc/order.py)
